@@ -183,7 +183,8 @@ def run(ck, F):
     # id-expression of a declaration: that declaration's type
     for fid, paths in cur.items():
         if fid == 'ipr::impl::expr_factory::make_id_expr(const ipr::Decl &)':
-            got = paths[0]['accessors'].get('type')
+            accs = [p['accessors'].get('type') for p in paths if 'accessors' in p]
+            got = accs[0] if len(accs) == len(paths) and len(set(accs)) == 1 else f'{len(paths)} outcomes, {len(accs)} of them a new node: {accs}'
             ck.check(R_given, 'make_id_expr(decl)', got == 'P0.type()', f'{fid}: type() yields `{got}`, expected the declaration\'s type',
                      loc=F.fn[fid]['loc'], fn=fid)
 
